@@ -613,7 +613,10 @@ func normaliseM(p *MProg) {
 }
 
 func genReaders(t *rapid.T) []int {
-	return rapid.SliceOfN(rapid.SampledFrom([]int{rManual, rManual, rPeriodic, rPeriodic, rPeriodicMs}), 0, 3).Draw(t, "readers")
+	if rapid.IntRange(0, 11).Draw(t, "no_reader") == 0 {
+		return nil
+	}
+	return rapid.SliceOfN(rapid.SampledFrom([]int{rManual, rManual, rPeriodic, rPeriodic, rPeriodicMs}), 1, 3).Draw(t, "readers")
 }
 
 func genMetricSeq(t *rapid.T) MProg {
